@@ -36,6 +36,8 @@ func runC12(p *eng.Prog, r *eng.Report, tier string) {
 	})
 	c.r.Floor("C12.3", "narrowing conversions of parsed numbers in the stream packages", nTr, 2)
 	c12Send(c)
+	c11ElementIsCharData(c, "C12.12")
+	c12HeaderAddressesWhole(c, "C12.13")
 	// C12.11 a stream error with an application condition (or any unknown
 	// child) is still decoded as the stream error: the hand-written token loop
 	// of stream.Error consumes every child it meets
@@ -880,4 +882,40 @@ func c12HeaderBufferPerCall(c *cx, id string) {
 		return true
 	})
 	c.r.Floor(id, "writer definitions in stream.Send", n, 2)
+}
+
+// c12HeaderAddressesWhole (C12.13): the addresses a stream header carries are
+// the session's addresses as they are: at every call of internal/stream.Send in
+// the negotiator the two address operands are X.String() of a jid.JID value
+// (a local, a field, a parameter) - not of something derived from it (Bare(),
+// Domain(), a With* copy): a response header that answers from='user@host/r'
+// with to='user@host' makes the initiator recover a different address.
+func c12HeaderAddressesWhole(c *cx, id string) {
+	n := 0
+	for _, f := range c.allFns() {
+		if !strings.HasPrefix(f.Short, "xmpp.") {
+			continue
+		}
+		for _, cl := range f.Calls("internal/stream.Send") {
+			if len(cl.Args) < 7 {
+				continue
+			}
+			for _, ix := range []int{5, 6} {
+				n++
+				okA, why := false, "the operand is not a call of JID.String"
+				if sc, isCall := ast.Unparen(cl.Args[ix]).(*ast.CallExpr); isCall && f.CalleeID(sc) == "jid.JID.String" {
+					if sel, isSel := ast.Unparen(sc.Fun).(*ast.SelectorExpr); isSel {
+						switch ast.Unparen(sel.X).(type) {
+						case *ast.Ident, *ast.SelectorExpr:
+							okA = true
+						default:
+							why = "the address is derived (" + types.ExprString(sel.X) + ") before it is written"
+						}
+					}
+				}
+				c.r.Check(id, f, "header address operand "+itoa(ix), "K: the to / from of a header that is sent is the String() of the session's address itself, not of a part of it", cl.Args[ix].Pos(), okA, why+": the peer recovers an address that differs from the one this side uses")
+			}
+		}
+	}
+	c.r.Floor(id, "address operands of stream.Send in the negotiator", n, 4)
 }
